@@ -603,5 +603,13 @@ def r15_16(ctx):
         raise AnchorError("kconfserver.core: no isinstance(.., int) test on a request value")
 
 
+def r15_17(ctx):
+    """R15.17 a huge JSON integer does not kill the server: expr_value() passes no operand through float() (C09 R09.16b) - the
+    OverflowError would be raised in handle_set()'s visibility test or while the reply is built, outside any handler."""
+    from . import c09
+    from .common import delegate
+    delegate(ctx, c09.r09_16, lambda c: c.startswith("expr_value/"))
+
+
 def rules():
-    return [("R15.16", r15_16, 2), ("R15.15", r15_15, 3), ("R15.14", r15_14, 2), ("R15.13", r15_13, 1), ("R15.12", r15_12, 8), ("R15.11", r15_11, 1), ("R15.10", r15_10, 2), ("R15.9", r15_9, 4), ("R15.7", r15_7, 1), ("R15.1", r15_1, 4), ("R15.2", r15_2, 2), ("R15.3", r15_3, 3), ("R15.4", r15_4, 2), ("R15.5", r15_5, 3), ("R15.6", r15_6, 2), ("R15.8", r15_8, 6)]
+    return [("R15.17", r15_17, 1), ("R15.16", r15_16, 2), ("R15.15", r15_15, 3), ("R15.14", r15_14, 2), ("R15.13", r15_13, 1), ("R15.12", r15_12, 8), ("R15.11", r15_11, 1), ("R15.10", r15_10, 2), ("R15.9", r15_9, 4), ("R15.7", r15_7, 1), ("R15.1", r15_1, 4), ("R15.2", r15_2, 2), ("R15.3", r15_3, 3), ("R15.4", r15_4, 2), ("R15.5", r15_5, 3), ("R15.6", r15_6, 2), ("R15.8", r15_8, 6)]
